@@ -48,14 +48,16 @@ type half struct {
 
 // Conn is one endpoint.
 type Conn struct {
-	S     *simrt.Sim
-	Name  string
-	EP    EP
-	rd    *half
-	wr    *half
-	local bool // closed locally
-	dead  error
-	peer  *Conn
+	lingerSet bool
+	linger    int
+	S         *simrt.Sim
+	Name      string
+	EP        EP
+	rd        *half
+	wr        *half
+	local     bool // closed locally
+	dead      error
+	peer      *Conn
 
 	Ops        int
 	Reads      int
@@ -322,6 +324,27 @@ func (c *Conn) Close() error {
 	c.local = true
 	c.wr.wclosed = true
 	c.rd.rclosed = true
+	if c.lingerSet && c.linger == 0 {
+		// SO_LINGER with a zero timeout: close aborts the connection. What the peer has not consumed yet is discarded
+		// and its next read fails with ECONNRESET (simnet has no kernel buffers: "sent" and "consumed by the peer"
+		// are the only two states, so everything not yet read counts as unsent)
+		if len(c.wr.buf) > 0 {
+			c.S.Fault("linger0-close-discards-unread-data")
+		}
+		c.wr.reset = true
+		c.wr.buf = nil
+	}
+	return nil
+}
+
+// SockOpt receives the socket options set through simrt.TCPConn.
+func (c *Conn) SockOpt(name string, v int) error {
+	if c.local {
+		return closedErr("setsockopt")
+	}
+	if name == "linger" {
+		c.lingerSet, c.linger = v >= 0, v
+	}
 	return nil
 }
 
@@ -411,7 +434,7 @@ func (l *Listener) Accept() (net.Conn, error) {
 		l.S.Fault("accept-late")
 		l.S.YieldNow("accept-late")
 	}
-	return c, nil
+	return &simrt.TCPConn{Conn: c}, nil
 }
 
 // Close closes the listener; the backlog is reset as a kernel does.
